@@ -629,4 +629,300 @@ theorem refuses_of_axis_snd {x y : List (V3 Rat)} (h : onOneCoordinateAxis y = t
   · exact rank_snd_z h
 
 end refuse
+
+section nf
+variable {K : Type} [Field K] [LinearOrder K] [IsStrictOrderedRing K]
+
+theorem sumMap_eq_zero_of_nonneg {α : Type} {f : α → K} {l : List α} (hf : ∀ a, 0 ≤ f a)
+    (h : sumMap f l = 0) : ∀ a ∈ l, f a = 0 := by
+  induction l with
+  | nil => intro a ha; simp at ha
+  | cons b l ih =>
+    rw [sumMap_cons] at h
+    have h1 := hf b
+    have h2 := sumMap_nonneg f l hf
+    have hb : f b = 0 := by linarith
+    have hl : sumMap f l = 0 := by linarith
+    intro a ha
+    rcases List.mem_cons.mp ha with rfl | ha
+    · exact hb
+    · exact ih hl a ha
+
+theorem mem_zip_map_self {α β : Type} (g : α → β) (x : List α) (a : α) (ha : a ∈ x) : (a, g a) ∈ x.zip (x.map g) := by
+  induction x with
+  | nil => simp at ha
+  | cons b x ih =>
+    simp only [List.map_cons, List.zip_cons_cons, List.mem_cons]
+    rcases List.mem_cons.mp ha with rfl | ha
+    · exact Or.inl rfl
+    · exact Or.inr (ih ha)
+
+theorem resid_map_self (x : List (V3 K)) (R : M3 K) (t : V3 K) (c : K) :
+    resid x (x.map (simApply R t c)) R t c = 0 := by
+  unfold resid
+  induction x with
+  | nil => rfl
+  | cons a x ih =>
+    simp only [List.map_cons, List.zip_cons_cons, sumMap_cons, ih, normSq_sub_self, add_zero]
+
+theorem V3.eq_of_sub_zero {a b : V3 K} (h : V3.sub a b = V3.zero) : a = b := by
+  have e := fun (f : V3 K → K) => congrArg f h
+  ext
+  · have := e V3.x; simp only [V3.sub, V3.zero] at this; linarith
+  · have := e V3.y; simp only [V3.sub, V3.zero] at this; linarith
+  · have := e V3.z; simp only [V3.sub, V3.zero] at this; linarith
+
+/-- a transformation with zero residual maps every point exactly -/
+theorem pointwise_of_resid_zero (x : List (V3 K)) (g : V3 K → V3 K) (R : M3 K) (t : V3 K) (c : K)
+    (h : resid x (x.map g) R t c = 0) : ∀ a ∈ x, g a = simApply R t c a := by
+  intro a ha
+  have := sumMap_eq_zero_of_nonneg (fun p => normSq_nonneg _) h (a, g a) (mem_zip_map_self g x a ha)
+  exact V3.eq_of_sub_zero (normSq_eq_zero this)
+
+/-- proper rotations commute with the cross product -/
+theorem rot_cross {R : M3 K} (hR : IsRot R) (u v : V3 K) :
+    R.mulVec (V3.cross u v) = V3.cross (R.mulVec u) (R.mulVec v) := by
+  obtain ⟨k00, k01, k02, k10, k11, k12, k20, k21, k22⟩ := hR.cof_eqs
+  ext <;> simp only [M3.mulVec, V3.cross]
+  · linear_combination (-(u.y * v.z - u.z * v.y)) * k00 - (u.z * v.x - u.x * v.z) * k10 - (u.x * v.y - u.y * v.x) * k20
+  · linear_combination (-(u.y * v.z - u.z * v.y)) * k01 - (u.z * v.x - u.x * v.z) * k11 - (u.x * v.y - u.y * v.x) * k21
+  · linear_combination (-(u.y * v.z - u.z * v.y)) * k02 - (u.z * v.x - u.x * v.z) * k12 - (u.x * v.y - u.y * v.x) * k22
+
+/-- Cramer: a matrix annihilating three independent vectors is zero -/
+theorem mat_zero_of_three (M : M3 K) (u v w : V3 K)
+    (hu : M.mulVec u = V3.zero) (hv : M.mulVec v = V3.zero) (hw : M.mulVec w = V3.zero)
+    (hdet : V3.dot (V3.cross u v) w ≠ 0) : M = M3.zero := by
+  have eu := fun (f : V3 K → K) => congrArg f hu
+  have ev := fun (f : V3 K → K) => congrArg f hv
+  have ew := fun (f : V3 K → K) => congrArg f hw
+  have ux := eu V3.x; have uy := eu V3.y; have uz := eu V3.z
+  have vx := ev V3.x; have vy := ev V3.y; have vz := ev V3.z
+  have wx := ew V3.x; have wy := ew V3.y; have wz := ew V3.z
+  simp only [M3.mulVec, V3.zero] at ux uy uz vx vy vz wx wy wz
+  simp only [V3.dot, V3.cross] at hdet
+  have row : ∀ a b c : K, a * u.x + b * u.y + c * u.z = 0 → a * v.x + b * v.y + c * v.z = 0 →
+      a * w.x + b * w.y + c * w.z = 0 → a = 0 ∧ b = 0 ∧ c = 0 := by
+    intro a b c h1 h2 h3
+    have ha : a * ((u.y * v.z - u.z * v.y) * w.x + (u.z * v.x - u.x * v.z) * w.y + (u.x * v.y - u.y * v.x) * w.z) = 0 := by
+      linear_combination (v.y * w.z - v.z * w.y) * h1 + (w.y * u.z - w.z * u.y) * h2 + (u.y * v.z - u.z * v.y) * h3
+    have hb : b * ((u.y * v.z - u.z * v.y) * w.x + (u.z * v.x - u.x * v.z) * w.y + (u.x * v.y - u.y * v.x) * w.z) = 0 := by
+      linear_combination (v.z * w.x - v.x * w.z) * h1 + (w.z * u.x - w.x * u.z) * h2 + (u.z * v.x - u.x * v.z) * h3
+    have hc : c * ((u.y * v.z - u.z * v.y) * w.x + (u.z * v.x - u.x * v.z) * w.y + (u.x * v.y - u.y * v.x) * w.z) = 0 := by
+      linear_combination (v.x * w.y - v.y * w.x) * h1 + (w.x * u.y - w.y * u.x) * h2 + (u.x * v.y - u.y * v.x) * h3
+    exact ⟨(mul_eq_zero.mp ha).resolve_right hdet, (mul_eq_zero.mp hb).resolve_right hdet,
+      (mul_eq_zero.mp hc).resolve_right hdet⟩
+  obtain ⟨a0, a1, a2⟩ := row _ _ _ ux vx wx
+  obtain ⟨b0, b1, b2⟩ := row _ _ _ uy vy wy
+  obtain ⟨c0, c1, c2⟩ := row _ _ _ uz vz wz
+  ext <;> simp only [M3.zero] <;> assumption
+
+/-- two similarity transformations with proper rotations and positive scales that agree on three
+non-collinear points are equal -/
+theorem sim_unique_of_three (R R0 : M3 K) (t t0 : V3 K) (c c0 : K) (hR : IsRot R) (hR0 : IsRot R0)
+    (hc : 0 < c) (hc0 : 0 < c0) (p0 p1 p2 : V3 K)
+    (h0 : simApply R0 t0 c0 p0 = simApply R t c p0) (h1 : simApply R0 t0 c0 p1 = simApply R t c p1)
+    (h2 : simApply R0 t0 c0 p2 = simApply R t c p2)
+    (hnc : V3.cross (V3.sub p1 p0) (V3.sub p2 p0) ≠ V3.zero) :
+    R = R0 ∧ t = t0 ∧ c = c0 := by
+  set u := V3.sub p1 p0 with hu
+  set v := V3.sub p2 p0 with hv
+  -- differences kill the translation
+  have du : V3.smul c (R.mulVec u) = V3.smul c0 (R0.mulVec u) := by
+    have e0 := fun (f : V3 K → K) => congrArg f h0
+    have e1 := fun (f : V3 K → K) => congrArg f h1
+    have a := e0 V3.x; have b := e0 V3.y; have d := e0 V3.z
+    have a' := e1 V3.x; have b' := e1 V3.y; have d' := e1 V3.z
+    simp only [simApply, V3.add, V3.smul, M3.mulVec] at a b d a' b' d'
+    ext <;> simp only [hu, V3.smul, M3.mulVec, V3.sub]
+    · linear_combination a - a'
+    · linear_combination b - b'
+    · linear_combination d - d'
+  have dv : V3.smul c (R.mulVec v) = V3.smul c0 (R0.mulVec v) := by
+    have e0 := fun (f : V3 K → K) => congrArg f h0
+    have e1 := fun (f : V3 K → K) => congrArg f h2
+    have a := e0 V3.x; have b := e0 V3.y; have d := e0 V3.z
+    have a' := e1 V3.x; have b' := e1 V3.y; have d' := e1 V3.z
+    simp only [simApply, V3.add, V3.smul, M3.mulVec] at a b d a' b' d'
+    ext <;> simp only [hv, V3.smul, M3.mulVec, V3.sub]
+    · linear_combination a - a'
+    · linear_combination b - b'
+    · linear_combination d - d'
+  -- u ≠ 0
+  have hupos : 0 < V3.normSq u := by
+    rcases (normSq_nonneg u).lt_or_eq with h | h
+    · exact h
+    · exfalso; apply hnc
+      have := normSq_eq_zero h.symm
+      rw [this]; ext <;> simp [V3.cross, V3.zero]
+  -- equal scales
+  have hn : c ^ 2 * V3.normSq u = c0 ^ 2 * V3.normSq u := by
+    have n1 : V3.normSq (V3.smul c (R.mulVec u)) = c ^ 2 * V3.normSq u := by
+      rw [← normSq_mulVec_of_ortho hR.1 u]; simp only [V3.normSq, V3.dot, V3.smul]; ring
+    have n2 : V3.normSq (V3.smul c0 (R0.mulVec u)) = c0 ^ 2 * V3.normSq u := by
+      rw [← normSq_mulVec_of_ortho hR0.1 u]; simp only [V3.normSq, V3.dot, V3.smul]; ring
+    rw [← n1, ← n2, du]
+  have hcc : c = c0 := by
+    have h2 : c ^ 2 = c0 ^ 2 := mul_right_cancel₀ hupos.ne' hn
+    nlinarith [sq_nonneg (c - c0), sq_nonneg (c + c0)]
+  subst hcc
+  have cancel : ∀ a b : V3 K, V3.smul c a = V3.smul c b → a = b := by
+    intro a b h
+    have e := fun (f : V3 K → K) => congrArg f h
+    have ex := e V3.x; have ey := e V3.y; have ez := e V3.z
+    simp only [V3.smul] at ex ey ez
+    ext
+    · exact mul_left_cancel₀ hc.ne' ex
+    · exact mul_left_cancel₀ hc.ne' ey
+    · exact mul_left_cancel₀ hc.ne' ez
+  have ru := cancel _ _ du
+  have rv := cancel _ _ dv
+  have rw' : R.mulVec (V3.cross u v) = R0.mulVec (V3.cross u v) := by
+    rw [rot_cross hR, rot_cross hR0, ru, rv]
+  have hdet : V3.dot (V3.cross u v) (V3.cross u v) ≠ 0 := by
+    intro h
+    exact hnc (normSq_eq_zero h)
+  have hM : M3.sub R R0 = M3.zero := by
+    apply mat_zero_of_three (M3.sub R R0) u v (V3.cross u v) _ _ _ hdet
+    · have e := fun (f : V3 K → K) => congrArg f ru
+      have ex := e V3.x; have ey := e V3.y; have ez := e V3.z
+      simp only [M3.mulVec] at ex ey ez
+      ext <;> simp only [M3.mulVec, M3.sub, V3.zero] <;> linarith
+    · have e := fun (f : V3 K → K) => congrArg f rv
+      have ex := e V3.x; have ey := e V3.y; have ez := e V3.z
+      simp only [M3.mulVec] at ex ey ez
+      ext <;> simp only [M3.mulVec, M3.sub, V3.zero] <;> linarith
+    · have e := fun (f : V3 K → K) => congrArg f rw'
+      have ex := e V3.x; have ey := e V3.y; have ez := e V3.z
+      simp only [M3.mulVec] at ex ey ez
+      ext <;> simp only [M3.mulVec, M3.sub, V3.zero] <;> linarith
+  have hRR : R = R0 := by
+    have e := fun (f : M3 K → K) => congrArg f hM
+    ext
+    · have := e M3.a00; simp only [M3.sub, M3.zero] at this; linarith
+    · have := e M3.a01; simp only [M3.sub, M3.zero] at this; linarith
+    · have := e M3.a02; simp only [M3.sub, M3.zero] at this; linarith
+    · have := e M3.a10; simp only [M3.sub, M3.zero] at this; linarith
+    · have := e M3.a11; simp only [M3.sub, M3.zero] at this; linarith
+    · have := e M3.a12; simp only [M3.sub, M3.zero] at this; linarith
+    · have := e M3.a20; simp only [M3.sub, M3.zero] at this; linarith
+    · have := e M3.a21; simp only [M3.sub, M3.zero] at this; linarith
+    · have := e M3.a22; simp only [M3.sub, M3.zero] at this; linarith
+  subst hRR
+  refine ⟨rfl, ?_, rfl⟩
+  have e0 := fun (f : V3 K → K) => congrArg f h0
+  have a := e0 V3.x; have b := e0 V3.y; have d := e0 V3.z
+  simp only [simApply, V3.add, V3.smul, M3.mulVec] at a b d
+  ext <;> linarith
+
+end nf
+
+section nfrat
+
+/-- noise-free data: every certified output is the generating transformation (three
+non-collinear points suffice: rank ≥ 2) -/
+theorem noise_free (ws : Bool) (x : List (V3 Rat)) (R0 R : M3 Rat) (t0 t : V3 Rat) (c0 c : Rat)
+    (hR0 : IsRot R0) (hc0 : 0 < c0) (hws : ws = false → c0 = 1)
+    (h : umeCert 0 ws x (x.map (simApply R0 t0 c0)) R t c = true)
+    (p0 p1 p2 : V3 Rat) (h0 : p0 ∈ x) (h1 : p1 ∈ x) (h2 : p2 ∈ x)
+    (hnc : V3.cross (V3.sub p1 p0) (V3.sub p2 p0) ≠ V3.zero) :
+    R = R0 ∧ t = t0 ∧ c = c0 := by
+  have hc := cert_of_umeCert h
+  have hlen : x.length = (x.map (simApply R0 t0 c0)).length := by simp
+  have hne : x ≠ [] := List.ne_nil_of_mem h0
+  have hle : resid x (x.map (simApply R0 t0 c0)) R t c ≤ 0 := by
+    rw [← resid_map_self x R0 t0 c0]
+    cases ws with
+    | true => exact optimal_sim hc hlen hne R0 t0 c0 hR0 hc0.le
+    | false =>
+      have := optimal_rigid hc hlen hne R0 t0 hR0
+      rwa [← hws rfl] at this
+  have hz : resid x (x.map (simApply R0 t0 c0)) R t c = 0 := le_antisymm hle (resid_nonneg _ _ _ _ _)
+  have hp := pointwise_of_resid_zero x _ R t c hz
+  have hcpos : 0 < c := by
+    have := hc.scale
+    cases ws with
+    | true => simp only [if_true] at this; exact this.2
+    | false => simp only [Bool.false_eq_true, if_false] at this; rw [this]; exact one_pos
+  exact sim_unique_of_three R R0 t t0 c c0 hc.rot hR0 hcpos hc0 p0 p1 p2 (hp p0 h0) (hp p1 h1) (hp p2 h2) hnc
+
+end nfrat
+
+section equiv
+variable {K : Type} [Field K]
+
+theorem sumMap_perm {α : Type} (f : α → K) {l l' : List α} (h : l.Perm l') : sumMap f l = sumMap f l' := by
+  induction h with
+  | nil => rfl
+  | cons a _ ih => simp only [sumMap_cons, ih]
+  | swap a b l => simp only [sumMap_cons]; ring
+  | trans _ _ ih1 ih2 => exact ih1.trans ih2
+
+/-- the residual does not depend on the order of the point pairs -/
+theorem resid_perm (x y x' y' : List (V3 K)) (h : (x.zip y).Perm (x'.zip y')) (R : M3 K) (t : V3 K) (c : K) :
+    resid x y R t c = resid x' y' R t c := sumMap_perm _ h
+
+theorem sumMap_map' {α β : Type} (g : α → β) (f : β → K) (l : List α) : sumMap f (l.map g) = sumMap (fun a => f (g a)) l := by
+  induction l with
+  | nil => rfl
+  | cons a l ih => simp only [List.map_cons, sumMap_cons, ih]
+
+/-- the composed transformation `B ∘ g ∘ A⁻¹` of a similarity `g = (R, t, c)` -/
+def conjRot (RA RB R : M3 K) : M3 K := RB.mul (R.mul RA.transpose)
+def conjScale (sA sB c : K) : K := sB * c / sA
+def conjTrans (RA RB R : M3 K) (tA tB t : V3 K) (sA sB c : K) : V3 K :=
+  V3.sub (V3.add (V3.smul sB (RB.mulVec t)) tB)
+    (V3.smul (conjScale sA sB c) ((conjRot RA RB R).mulVec tA))
+
+theorem conj_apply (RA RB R : M3 K) (tA tB t : V3 K) (sA sB c : K) (hA : IsOrtho RA) (hsA : sA ≠ 0) (p : V3 K) :
+    simApply (conjRot RA RB R) (conjTrans RA RB R tA tB t sA sB c) (conjScale sA sB c) (simApply RA tA sA p)
+      = simApply RB tB sB (simApply R t c p) := by
+  have e : ∀ v : V3 K, RA.transpose.mulVec (RA.mulVec v) = v := by
+    intro v; rw [M3.mulVec_mulVec, hA, M3.one_mulVec]
+  have key : (conjRot RA RB R).mulVec (simApply RA tA sA p)
+      = V3.add (V3.smul sA (RB.mulVec (R.mulVec p))) ((conjRot RA RB R).mulVec tA) := by
+    have h1 : (conjRot RA RB R).mulVec (RA.mulVec p) = RB.mulVec (R.mulVec p) := by
+      unfold conjRot
+      rw [← M3.mulVec_mulVec, ← M3.mulVec_mulVec, e]
+    have h2 : (conjRot RA RB R).mulVec (simApply RA tA sA p)
+        = V3.add (V3.smul sA ((conjRot RA RB R).mulVec (RA.mulVec p))) ((conjRot RA RB R).mulVec tA) := by
+      ext <;> simp only [simApply, M3.mulVec, V3.add, V3.smul] <;> ring
+    rw [h2, h1]
+  have step : simApply (conjRot RA RB R) (conjTrans RA RB R tA tB t sA sB c) (conjScale sA sB c) (simApply RA tA sA p)
+      = V3.add (V3.smul (conjScale sA sB c) (V3.add (V3.smul sA (RB.mulVec (R.mulVec p))) ((conjRot RA RB R).mulVec tA)))
+          (conjTrans RA RB R tA tB t sA sB c) := by
+    rw [← key]; rfl
+  rw [step]
+  ext <;> simp only [simApply, conjTrans, conjScale, V3.add, V3.sub, V3.smul, M3.mulVec] <;> field_simp <;> ring
+
+theorem normSq_sim_sub (RB : M3 K) (tB : V3 K) (sB : K) (hB : IsOrtho RB) (a b : V3 K) :
+    V3.normSq (V3.sub (simApply RB tB sB a) (simApply RB tB sB b)) = sB ^ 2 * V3.normSq (V3.sub a b) := by
+  have h1 : V3.sub (simApply RB tB sB a) (simApply RB tB sB b) = V3.smul sB (RB.mulVec (V3.sub a b)) := by
+    ext <;> simp only [simApply, M3.mulVec, V3.add, V3.sub, V3.smul] <;> ring
+  rw [h1, ← normSq_mulVec_of_ortho hB (V3.sub a b)]
+  simp only [V3.normSq, V3.dot, V3.smul]; ring
+
+theorem zip_map_both {α β γ δ : Type} (f : α → γ) (g : β → δ) (a : List α) (b : List β) :
+    (a.map f).zip (b.map g) = (a.zip b).map (fun p => (f p.1, g p.2)) := by
+  induction a generalizing b with
+  | nil => rfl
+  | cons x a ih =>
+    cases b with
+    | nil => rfl
+    | cons y b => simp only [List.map_cons, List.zip_cons_cons, ih]
+
+/-- **equivariance of the residual**: moving / scaling the inputs by similarities `A` (on `x`) and
+`B` (on `y`) and composing the transformation accordingly multiplies the residual by `s_B²` -/
+theorem resid_equivariant (x y : List (V3 K)) (RA RB R : M3 K) (tA tB t : V3 K) (sA sB c : K)
+    (hA : IsOrtho RA) (hB : IsOrtho RB) (hsA : sA ≠ 0) :
+    resid (x.map (simApply RA tA sA)) (y.map (simApply RB tB sB))
+        (conjRot RA RB R) (conjTrans RA RB R tA tB t sA sB c) (conjScale sA sB c)
+      = sB ^ 2 * resid x y R t c := by
+  unfold resid
+  rw [zip_map_both, sumMap_map', ← sumMap_mul_left]
+  apply sumMap_congr
+  intro p
+  simp only []
+  rw [conj_apply RA RB R tA tB t sA sB c hA hsA, normSq_sim_sub RB tB sB hB]
+
+end equiv
 end Evo.Ume
